@@ -10,9 +10,11 @@ import SqlfluffVerif.Driver.Lexer
 import SqlfluffVerif.Driver.LexSpec
 import SqlfluffVerif.Driver.Slices
 import SqlfluffVerif.Driver.Exit
+import SqlfluffVerif.Driver.Discovery
+import SqlfluffVerif.Driver.WritePath
 open SqlfluffVerif SqlfluffVerif.Proto SqlfluffVerif.Driver
 
-def handlers : List (List String → Option String) := [handlePos, handlePatch, handleDedupe, handleNoqa, handleSelect, handleMR, handleTreeSpec, handleLexer, handleLexSpec, handleSlices, handleExit]
+def handlers : List (List String → Option String) := [handlePos, handlePatch, handleDedupe, handleNoqa, handleSelect, handleMR, handleTreeSpec, handleLexer, handleLexSpec, handleSlices, handleExit, handleDiscovery, handleWritePath]
 
 def handle (toks : List String) : String :=
   match toks with
